@@ -346,7 +346,18 @@ func init() {
 		if a.IsConst() {
 			return ex.strConst(strconv.FormatInt(a.ConstS(), 10))
 		}
-		return ex.bigDecimal(st, a, site)
+		// 18 digits fit a signed 64-bit Horner sum; larger values are a stated-bound event
+		old, had := ex.bounds["bigdigits"]
+		if !had || old == 0 || old > 18 {
+			ex.bounds["bigdigits"] = 18
+		}
+		r := ex.bigDecimal(st, a, site)
+		if had {
+			ex.bounds["bigdigits"] = old
+		} else {
+			delete(ex.bounds, "bigdigits")
+		}
+		return r
 	}
 	reg("strconv.Itoa", itoa)
 	reg("strconv.FormatInt", itoa)
@@ -382,9 +393,6 @@ func (ex *Exec) bigDecimal(st *State, a *Term, site ssa.Instruction) Value {
 	maxDigits := ex.bounds["bigdigits"]
 	if maxDigits == 0 {
 		maxDigits = 24
-	}
-	if w <= 64 && maxDigits > 18 {
-		maxDigits = 18
 	}
 	ex.boundIf(st, Slt(a, BV(w, 0)), "big.Int.Text of a negative symbolic value", site)
 	pow := new(big.Int).Exp(big.NewInt(10), big.NewInt(int64(maxDigits)), nil)
